@@ -8,15 +8,21 @@ the class constructors themselves, never with taskiq's serialization code - the 
 takes as input, then stores and loads a real TaskiqResult through JSON text, JSON dict and pickle and abstracts
 each loaded object back (class kind, name, argument forms, cause / context / suppress tree).
 Family "seq" (see run_seq): several store / load steps in ONE (forked) process with environment changes in between, the
-flags measured again at every step. Nothing here re-implements prepare_exception / exception_to_python."""
+flags measured again at every step. Nothing here re-implements prepare_exception / exception_to_python.
+Every case runs in a supervised child process (see Supervisor): a store / load that never finishes is the outcome "hang"."""
 import collections
 import datetime
 import decimal
 import enum
 import json
+import os
 import pickle
+import select
+import signal
 import sys
 import threading
+import time
+import traceback
 import types
 from inspect import getmro
 from typing import Any, Tuple
@@ -24,7 +30,9 @@ from typing import Any, Tuple
 import pydantic
 
 import taskiq.exceptions as TX
+import taskiq.serialization as S
 from taskiq.compat import model_dump, model_dump_json, model_validate, model_validate_json
+from taskiq.message import BrokerMessage, TaskiqMessage
 from taskiq.result import TaskiqResult
 from taskiq.serialization import _UnpickleableExceptionWrapper as Wrapper
 
@@ -183,11 +191,150 @@ def make_eq_locals():
         code: object
     return LocalEq, LocalData
 def _dyn_eq(self, o): return type(o) is type(self) and o.args == self.args
+# --- values that are themselves taskiq / pydantic objects with their own serialisation hooks, and objects whose
+# __repr__ / __str__ / __reduce__ / __getstate__ call back into taskiq's result serialisation (or raise afterwards):
+# storing a result is legitimately RE-ENTERED - on the same thread or, through a helper thread, on another one -
+# while an outer store is in progress. Every hook logs how many calls of taskiq.serialization.prepare_exception are
+# active on its own stack (evidence only).
+def _nest():
+    f, n = sys._getframe(1), 0
+    while f is not None:
+        c = f.f_code
+        if c.co_name == "prepare_exception" and c.co_filename.replace("\\", "/").endswith("taskiq/serialization.py"):
+            n += 1
+        f = f.f_back
+    return n
+def _log(kind, enters=1):
+    """enters=1: the hook goes on to store a result itself, i.e. to call prepare_exception one level deeper"""
+    HOOK_LOG.append((kind, _nest() + enters, threading.current_thread() is threading.main_thread()))
+def _child(err=None, value=None):
+    return TaskiqResult(is_err=err is not None, return_value=value, execution_time=0.25, error=err)
+def _in_thread(f):
+    box = []
+    def target():
+        try:
+            box.append(f())
+        except BaseException as x:
+            box.append(x)
+    t = threading.Thread(target=target, daemon=True)
+    t.start()
+    t.join()
+    if isinstance(box[0], BaseException):
+        raise box[0]
+    return box[0]
+class ProbeErr(Exception):
+    """an ordinary picklable exception that notes the nesting depth at which it is pickled"""
+    def __reduce__(self):
+        _log("probe", 0)
+        return super().__reduce__()
+class ChildTaskFailed(Exception):
+    """what a parent task raises when a child task failed: the child's (failed) result rides on the instance"""
+    def __init__(self, *a):
+        super().__init__(*a)
+        self.child_result = _child(ProbeErr("child failed", 3))
+class ReentStr(Exception):
+    """its text form is the JSON dump of a failed result"""
+    def __str__(self):
+        _log("excstr")
+        return "failed: " + model_dump_json(_child(ValueError("in str")))
+    __repr__ = __str__
+class ReentReduce(Exception):
+    """its __reduce__ pickles a failed result of its own before answering"""
+    def __reduce__(self):
+        _log("excreduce")
+        pickle.dumps(_child(ProbeErr("in reduce")))
+        return super().__reduce__()
+class ReentReduceRaises(Exception):
+    """... and then refuses to be pickled"""
+    def __reduce__(self):
+        _log("excreduceraises")
+        S.prepare_exception(ProbeErr("x"), pickle)
+        raise TypeError("no reduce after all")
+class ThreadReduceExc(Exception):
+    """its __reduce__ lets a helper thread pickle a failed result and waits for it"""
+    def __reduce__(self):
+        _log("excthreadreduce")
+        _in_thread(lambda: pickle.dumps(_child(ProbeErr("in thread"))))
+        return super().__reduce__()
+CHILD_JSON = ('{"is_err": true, "log": null, "return_value": null, "execution_time": 0.1, "labels": {}, "error": '
+              '{"exc_type": "ValueError", "exc_message": ["boom", 3], "exc_module": "builtins", "exc_cause": '
+              '{"exc_type": "Gone", "exc_message": [], "exc_module": "no.where", "exc_cause": null, "exc_context": null, '
+              '"exc_suppress_context": false}, "exc_context": null, "exc_suppress_context": false}}')
+class LoadsResult(Exception):
+    """its constructor LOADS the stored result of the failed child (JSON): whenever taskiq re-creates the exception from a
+    stored error - cls(*args) in exception_to_python - exception_to_python is re-entered"""
+    def __init__(self, *a):
+        super().__init__(*a)
+        _log("ctorloads", 0)
+        self.child = model_validate_json(TaskiqResult, CHILD_JSON)
+def make_reent_locals():
+    class LocalChildFailed(ChildTaskFailed): pass
+    class LocalReentStr(ReentStr): pass
+    return LocalChildFailed, LocalReentStr
+class _SameType:
+    def __eq__(self, o): return type(o) is type(self)
+    def __hash__(self): return 5
+class ReprStores(_SameType):
+    """picklable, not JSON; repr() = a report that embeds the JSON dump of a failed result"""
+    def __repr__(self):
+        _log("repr")
+        return "<report %s>" % model_dump_json(_child(ValueError("in repr")))
+class StrStores(_SameType):
+    """un-repr-able; str() stores a failed result (JSON dict) on the way"""
+    def __repr__(self): raise RuntimeError("r")
+    def __str__(self):
+        _log("str")
+        return "report(%d)" % len(model_dump(_child(KeyError("in str"))))
+class ReduceStores(_SameType):
+    def __reduce__(self):
+        _log("reduce")
+        pickle.dumps(_child(ProbeErr("in reduce")))
+        return (ReduceStores, ())
+class GetstateStores(_SameType):
+    def __getstate__(self):
+        _log("getstate")
+        S.prepare_exception(ProbeErr("gs"), pickle)
+        return {"x": 1}
+class ReduceStoresRaises(_SameType):
+    """stores a failed result, then turns out to be unpicklable"""
+    def __reduce__(self):
+        _log("reduceraises")
+        pickle.dumps(_child(ProbeErr("in reduce")))
+        raise TypeError("cannot pickle after all")
+    def __repr__(self): return "<ReduceStoresRaises>"
+def _rebuild_converting():
+    _log("load", 0)
+    S.exception_to_python(S.ExceptionRepr(exc_type="ValueError", exc_message=("at load",), exc_module="builtins",
+                                          exc_cause=S.ExceptionRepr(exc_type="Gone", exc_message=(), exc_module="no.where")))
+    return LoadConverts()
+class LoadConverts(_SameType):
+    """unpickling it converts a stored error back to an exception (exception_to_python re-entered at LOAD time)"""
+    def __reduce__(self): return (_rebuild_converting, ())
+class ThreadReduce(_SameType):
+    """its __reduce__ lets a helper THREAD pickle a failed result and waits for it"""
+    def __reduce__(self):
+        _log("threadreduce")
+        _in_thread(lambda: pickle.dumps(_child(ProbeErr("in thread"))))
+        return (ThreadReduce, ())
+class ThreadRepr(_SameType):
+    """its repr() lets a helper THREAD dump a failed result as JSON and waits for it; unpicklable"""
+    def __init__(self): self.lock = threading.Lock()
+    def __repr__(self):
+        _log("threadrepr")
+        return "<threaded %s>" % _in_thread(lambda: model_dump_json(_child(ValueError("in thread"))))
+class PydModel(pydantic.BaseModel):
+    x: int = 1
+    tags: list = []
+class SubResult(TaskiqResult):
+    """a subclass of the result model (applications add fields)"""
+    note: str = "n"
 def shadow_fn(*a): raise SystemError("trap: a resolved non-exception object was CALLED")
 shadow_inst = 5
 '''
 ZOO = None
 CLASSES = {}
+HOOK_LOG = []        # (hook kind, active prepare_exception calls on the hook's own stack, on the main thread?) - one list for
+                     # every (re-)executed copy of the generated module
 LOCAL_OBJ = None
 UNWANTED = (Exception, BaseException, object)
 
@@ -204,8 +351,10 @@ def make_table(zoo):
     for n in ("ModLevel ModBase ModSubVal Rewrites KwOnly TwoPos ExtraPos SubRewrites SubTwoPos WithLock StrRaises "
               "ReduceBad FalsyLen FalsyBool EqHash EqNoHash EqTrue EqRaises SubEqVal DataExc DataHashExc "
               "FalsySubVal FalsyBase LenArgs BoolRaises LenNegative FalsyTwoPos FalsyRewrites FalsyWithLock FalsyStrRaises "
-              "FalsyMixin FalsyEq FalsyData").split():
+              "FalsyMixin FalsyEq FalsyData "
+              "ProbeErr ChildTaskFailed ReentStr ReentReduce ReentReduceRaises ThreadReduceExc LoadsResult").split():
         t[n] = getattr(zoo, n)
+    t["LocalChildFailed"], t["LocalReentStr"] = zoo.make_reent_locals()
     LocalEq, LocalData = zoo.make_eq_locals()
     LocalFalsy, LocalSubFalsy, LocalSubFalsyVal, LocalFalsyMixin, LocalFalsyEq, LocalTruthySub = zoo.make_falsy_locals()
     t.update({
@@ -241,7 +390,9 @@ def make_table(zoo):
 
 
 def exec_zoo(mod):
-    mod.__dict__["enum"] = enum
+    mod.__dict__.update(enum=enum, sys=sys, pickle=pickle, json=json, pydantic=pydantic, S=S, TaskiqResult=TaskiqResult,
+                        model_dump_json=model_dump_json, model_dump=model_dump, model_validate_json=model_validate_json,
+                        HOOK_LOG=HOOK_LOG)
     exec(compile(ZOO_SRC, "<excser_zoo>", "exec"), mod.__dict__)
     return mod
 
@@ -274,6 +425,26 @@ def _circ():
 def _with_lock(o):
     o.lock = threading.Lock()
     return o
+
+
+def _res_chain():
+    """failed child whose own error has a cause (not importable, unpicklable argument) and a context"""
+    e = KeyError("k")
+    e.__cause__ = CLASSES["Local"]("deep", lambda: 0)
+    e.__context__ = ZOO.ProbeErr("ctx")
+    return ZOO._child(e)
+
+
+def _res_cyc():
+    """failed child whose own error chain is cyclic (the inner store has its own path to cut)"""
+    a, b = CLASSES["Local"]("a"), CLASSES["Local"]("b", {1, 2})
+    a.__cause__, b.__context__ = b, a
+    return ZOO._child(a)
+
+
+def _res_nested():
+    """failed child whose error carries the failed result of ITS child: the store is re-entered twice"""
+    return ZOO._child(CLASSES["ModLevel"]("grandchild failed", ZOO._child(ZOO.ProbeErr("leaf"))))
 
 
 ARGS = {
@@ -313,7 +484,34 @@ ARGS = {
     "surrtuple": lambda: ("\ud800",),
     # ... in a dict key: also breaks the JSON-dict path
     "surrkey": lambda: {"\ud800": 1}, "surrkeynest": lambda: [{"k": {"\udfff": None}}],
+    # --- taskiq / pydantic objects with their own serialisation hooks. A result whose `error` is set prepares that error
+    # in its __getstate__: pickling an exception that carries one RE-ENTERS prepare_exception on the same thread
+    "resok": lambda: ZOO._child(None, 5),
+    "reserr": lambda: ZOO._child(ValueError("boom", 3)),
+    "reserrprobe": lambda: ZOO._child(ZOO.ProbeErr("child failed", 3)),
+    "reserrlocal": lambda: ZOO._child(CLASSES["Local"]("not importable")),
+    "reserrbadarg": lambda: ZOO._child(ZOO.ProbeErr("arg", threading.Lock())),
+    "reserrchain": _res_chain, "reserrcyc": _res_cyc, "reserrnested": _res_nested,
+    "listreserr": lambda: ["ctx", ZOO._child(ZOO.ProbeErr("in list"))],
+    "dictreserr": lambda: {"child": ZOO._child(ZOO.ProbeErr("in dict"))},
+    "tuplereserr": lambda: (ZOO._child(ZOO.ProbeErr("in tuple")), 1),
+    "subreserr": lambda: ZOO.SubResult(is_err=True, return_value=None, execution_time=0.5, error=ZOO.ProbeErr("sub")),
+    "tmsg": lambda: TaskiqMessage(task_id="id1", task_name="mod:task", labels={"a": 1}, args=[1, "x"], kwargs={"k": None}),
+    "brokermsg": lambda: BrokerMessage(task_id="id1", task_name="mod:task", message=b"{}", labels={}),
+    "pydmodel": lambda: ZOO.PydModel(x=3, tags=["t"]),
+    "excrepr": lambda: S.ExceptionRepr(exc_type="ValueError", exc_message=("x", 1), exc_module="builtins"),
+    "wrapperinst": lambda: Wrapper("builtins", "ValueError", ("x",), "ValueError('x')"),
+    # --- objects whose own hooks store a result / call taskiq.serialization while the outer store is in progress
+    "reprstores": lambda: ZOO.ReprStores(), "reprstoreslock": lambda: _with_lock(ZOO.ReprStores()),
+    "strstores": lambda: ZOO.StrStores(), "reducestores": lambda: ZOO.ReduceStores(),
+    "getstatestores": lambda: ZOO.GetstateStores(), "reducestoresraises": lambda: ZOO.ReduceStoresRaises(),
+    "loadconverts": lambda: ZOO.LoadConverts(),
+    # ... on ANOTHER thread (the hook waits for it)
+    "threadreduce": lambda: ZOO.ThreadReduce(), "threadrepr": lambda: ZOO.ThreadRepr(),
 }
+
+
+TEXT_MEMO = {}       # id(argument) -> (argument, its repr() texts, its str() texts) since the current case began
 
 
 class Probe(pydantic.BaseModel):
@@ -381,12 +579,21 @@ def tryf(f):
 def measure_arg(a):
     """capability flags of one argument, measured with the real functions"""
     m = {}
+    # (pickling a value that holds a result with an error rewrites that result's `error` in place - notes/C19.md (d) - so
+    # its text form before the first pickling may differ from the one after it, and a payload stored at an earlier step of
+    # a sequence may quote the earlier one: every text form the argument has had since the case began counts as its text form)
+    memo = TEXT_MEMO.setdefault(id(a), (a, set(), set()))
+    memo[1].add(tryf(lambda: repr(a))[1])
+    memo[2].add(tryf(lambda: str(a))[1])
     m["rt_json"], _ = tryf(lambda: json.loads(json.dumps(a)))
     m["rt_pickle"], pv = tryf(lambda: pickle.loads(pickle.dumps(a)))
     m["eq_pickle"] = bool(m["rt_pickle"] and deep_eq(pv, a))
     m["repr_ok"], rtext = tryf(lambda: repr(a))
     m["str_ok"], stext = tryf(lambda: str(a))
     m["repr_text"], m["str_text"] = (rtext if m["repr_ok"] else None), (stext if m["str_ok"] else None)
+    memo[1].add(m["repr_text"])
+    memo[2].add(m["str_text"])
+    m["repr_text0"], m["str_text0"] = memo[1], memo[2]
     text = rtext if m["repr_ok"] else stext if m["str_ok"] else "<Unrepresentable>"
     for e in ("text", "dict"):
         if m["rt_json"]:
@@ -418,10 +625,10 @@ def arg_form(loaded, orig, m):
         return "AEq"
     if isinstance(loaded, str):
         if m["repr_ok"]:
-            if loaded == m["repr_text"]:
+            if loaded == m["repr_text"] or loaded in m["repr_text0"]:
                 return "ARepr"
         elif m["str_ok"]:
-            if loaded == m["str_text"]:
+            if loaded == m["str_text"] or loaded in m["str_text0"]:
                 return "AStr"
         elif loaded.startswith("<Unrepresentable "):
             return "AUnrep"
@@ -481,6 +688,8 @@ def build(spec):
             e.args = tuple(vals)
     if spec.get("set_args"):
         e.args = tuple(vals)
+    if spec.get("res_attr"):
+        e.child_result = ARGS[spec["res_attr"]]()      # e.g. `exc.child_result = result_of_the_failed_child`
     if spec.get("lock_attr"):
         e.extra = threading.Lock()
     if spec.get("raised"):
@@ -641,38 +850,73 @@ def export_nodes(nodes, specs):
     out = []
     for n, s in zip(nodes, specs):
         d = {k: n[k] for k in NODE_KEYS}
-        d["args"] = [{k: v for k, v in m.items() if k not in ("repr_text", "str_text", "loaded_text", "loaded_dict")}
+        d["args"] = [{k: v for k, v in m.items() if k not in ("repr_text", "str_text", "repr_text0", "str_text0", "loaded_text", "loaded_dict")}
                      for m in n["ms"]]
         d["cause"], d["context"], d["suppress"] = s.get("cause"), s.get("context"), bool(s.get("suppress"))
         out.append(d)
     return out
 
 
-def store(enc, excs):
-    """("stored", payload) or the failure outcome"""
-    try:
-        r = TaskiqResult(is_err=True, return_value=None, execution_time=0.0, error=excs[0])
-    except BaseException as x:  # noqa: B036 - building the result that is to be stored is part of storing it
-        return dict(o="store_fail", exc=type(x).__name__, msg=str(x)[:300], at="construct")
-    if r.error is not excs[0]:
-        return dict(o="construct_lost", detail=type(r.error).__name__)
-    try:
-        return ("stored", STORE[enc](r))
-    except BaseException as x:  # noqa: B036 - the statement says "never fails"
-        return dict(o="store_fail", exc=type(x).__name__, msg=str(x)[:300])
+# ---- every store and every load is a STAGE: announced to the supervising process before it starts (see Supervisor), so
+# that a stage that never finishes becomes the outcome "hang" of exactly that encoding, and skipped - with that outcome -
+# when the case is run again in a fresh process
+GUARD = dict(skip={}, progress=None)
 
 
-def load(enc, stored, nodes, links):
+def guarded(key, f):
+    k = json.dumps(key)
+    if k in GUARD["skip"]:
+        return dict(GUARD["skip"][k])
+    say = GUARD["progress"]
+    if say is not None:
+        say(key)
+    try:
+        return f()
+    finally:
+        if say is not None:
+            say(None)
+
+
+def hook_facts(n0):
+    """what the generated hooks logged since mark n0 (evidence only: neither the model nor the oracle reads it)"""
+    log = HOOK_LOG[n0:]
+    return dict(calls=len(log), max_nest=max([n for _, n, _ in log], default=0),
+                nested_main=sum(1 for _, n, m in log if m and n >= 2), other_thread=sum(1 for _, _, m in log if not m),
+                kinds=sorted({k for k, _, _ in log}))
+
+
+def store(enc, excs, step=None):
+    """("stored", payload, hook facts) or the failure outcome"""
+    def go():
+        n0 = len(HOOK_LOG)
+        try:
+            r = TaskiqResult(is_err=True, return_value=None, execution_time=0.0, error=excs[0])
+        except BaseException as x:  # noqa: B036 - building the result that is to be stored is part of storing it
+            return dict(o="store_fail", exc=type(x).__name__, msg=str(x)[:300], at="construct")
+        if r.error is not excs[0]:
+            return dict(o="construct_lost", detail=type(r.error).__name__)
+        try:
+            return ("stored", STORE[enc](r), hook_facts(n0))
+        except BaseException as x:  # noqa: B036 - the statement says "never fails"
+            return dict(o="store_fail", exc=type(x).__name__, msg=str(x)[:300], hooks=hook_facts(n0))
+    return guarded([step, enc, "store"], go)
+
+
+def load(enc, stored, nodes, links, step=None):
     if isinstance(stored, dict):
-        return stored                     # the store already failed
-    try:
-        back = LOAD[enc](stored[1])
-    except BaseException as x:  # noqa: B036
-        return dict(o="security" if type(x) is TX.SecurityError else "load_fail", exc=type(x).__name__, msg=str(x)[:300])
-    err = back.error
-    if not isinstance(err, BaseException):
-        return dict(o="notexc", type=type(err).__name__)
-    return dict(o="loaded", t=abstract(err, 0, nodes, links, enc))
+        return stored                     # the store already failed (or never finished)
+
+    def go():
+        n0 = len(HOOK_LOG)
+        try:
+            back = LOAD[enc](stored[1])
+        except BaseException as x:  # noqa: B036
+            return dict(o="security" if type(x) is TX.SecurityError else "load_fail", exc=type(x).__name__, msg=str(x)[:300])
+        err = back.error
+        if not isinstance(err, BaseException):
+            return dict(o="notexc", type=type(err).__name__)
+        return dict(o="loaded", t=abstract(err, 0, nodes, links, enc), hooks=stored[2], load_hooks=hook_facts(n0))
+    return guarded([step, enc, "load"], go)
 
 
 def check_links(excs, links):
@@ -683,11 +927,17 @@ def check_links(excs, links):
 
 
 def run_case(case, opts):
+    """entry of harness/drivers/_main.py: the case runs in a supervised child process, never in this one"""
+    return SUPERVISOR.run(case)
+
+
+def run_here(case):
+    TEXT_MEMO.clear()
     if case.get("family") == "seq":
-        return forked(run_seq, case)
+        return run_seq(case)
     specs = case["nodes"]
     excs, links = build_graph(specs)
-    nodes = measure_graph(excs)
+    nodes = guarded([None, "measure", "measure"], lambda: measure_graph(excs))
     out = {"nodes": export_nodes(nodes, specs), "enc": {}}
     for enc in ("text", "dict", "pickle"):
         out["enc"][enc] = load(enc, store(enc, excs), nodes, links)
@@ -801,7 +1051,7 @@ def run_seq(case):
     out = {"steps": []}
     excs = links = specs = payloads = None
     try:
-        for st in case["steps"]:
+        for step, st in enumerate(case["steps"]):
             for op in st.get("ops", []):
                 apply_op(op)
             mode = st.get("mode", "new")
@@ -812,19 +1062,19 @@ def run_seq(case):
                 excs, links = build_graph(specs)
             # ONE call site for every JSON store of the sequence (the "<Unrepresentable ..>" text form of an un-printable
             # argument quotes the call stack)
-            stored_now = {enc: store(enc, excs) for enc in ("text", "dict")}
+            stored_now = {enc: store(enc, excs, step) for enc in ("text", "dict")}
             if fresh_graph:
                 payloads, same = stored_now, None
             else:
                 # evidence for the assumption "what a JSON store writes does not depend on the environment": the same
                 # objects stored again NOW give the payload that was stored before the environment changed
                 same = all(canon_payload(stored_now[enc]) == canon_payload(payloads[enc]) for enc in ("text", "dict"))
-            nodes = measure_graph(excs)
+            nodes = guarded([step, "measure", "measure"], lambda: measure_graph(excs))
             o = {"nodes": export_nodes(nodes, specs), "enc": {}, "specs": specs,
                  "env": dict(zoo=ZOO_NAME in sys.modules, nowhere=NOWHERE in sys.modules, payload_same_as_fresh_store=same)}
             for enc in ("text", "dict"):
-                o["enc"][enc] = load(enc, payloads[enc], nodes, links)
-            o["enc"]["pickle"] = load("pickle", store("pickle", excs), nodes, links)
+                o["enc"][enc] = load(enc, payloads[enc], nodes, links, step)
+            o["enc"]["pickle"] = load("pickle", store("pickle", excs, step), nodes, links, step)
             check_links(excs, links)
             out["steps"].append(o)
     finally:
@@ -835,33 +1085,186 @@ def run_seq(case):
     return out
 
 
-def forked(f, case):
-    """run f(case) in a forked child: the sequence starts from the pristine process state whatever ran before it in this
-    driver process (so a group never depends on sharding and replays alone exactly as it ran)"""
-    import os
-    import traceback
-    if not hasattr(os, "fork"):
-        return f(case)
-    rd, wr = os.pipe()
-    pid = os.fork()
-    if pid == 0:
-        code = 0
-        try:
-            os.close(rd)
+# --------------------------------------------------------------------------- supervision: hangs become verdicts
+# "Never fails" includes "finishes". No case runs in the driver process itself (which only imports and creates the
+# generated module - it stays pristine and single-threaded): plain cases run one after the other in a WORKER forked from it,
+# a family-"seq" group in a child of its own (it starts from the pristine state whatever ran before, so a group does not
+# depend on sharding and replays alone exactly as it ran). The child announces every store / load before it starts. A stage
+# is declared hung when - after a grace period - EVERY thread of the child has been asleep without using any CPU time for
+# HANG_WINDOW seconds (blocked for good: a deadlock; a machine under load cannot fake that - a starved process is
+# runnable, not asleep), or when the stage has burnt CPU_LIMIT seconds of CPU time or WALL_LIMIT seconds of wall time
+# (fail closed). Then the child is killed (its stuck threads and whatever lock they hold go with it), the stage gets the
+# outcome "hang", and the SAME case is run again in a fresh child with that stage skipped, so the other encodings of the
+# case are still observed from a clean state and the cases that follow are not affected.
+HANG_GRACE, HANG_WINDOW, CPU_LIMIT, WALL_LIMIT, MAX_HANGS = 0.6, 1.4, 30.0, 240.0, 12
+POLL = 0.2
+# once a driver process has SEEN stages hang (never on a sound tree), later ones are declared hung sooner - same criterion
+FAST_AFTER, FAST_GRACE, FAST_WINDOW = 3, 0.3, 0.7
+
+
+def _die_with_parent():
+    try:
+        import ctypes
+        ctypes.CDLL(None).prctl(1, signal.SIGKILL)       # PR_SET_PDEATHSIG
+    except Exception:
+        pass
+
+
+def _child_main(cmd_rd, res_wr, once):
+    """in the forked child: jobs in (one JSON line each), progress and results out"""
+    _die_with_parent()
+    out = os.fdopen(res_wr, "w")
+
+    def say(msg):
+        out.write(json.dumps(msg, default=str) + "\n")
+        out.flush()
+    GUARD["progress"] = lambda key: say({"at": key})
+    with os.fdopen(cmd_rd) as jobs:
+        for line in jobs:
+            job = json.loads(line)
+            GUARD["skip"] = job["skip"]
             try:
-                data = json.dumps(f(case), default=str)
+                obs = run_here(job["case"])
+            except BaseException:  # noqa: B036 - a driver crash is an observation, never a silent pass
+                obs = {"_crash": traceback.format_exc()[-2000:]}
+            say({"done": obs})
+            if once:
+                break
+
+
+class Child:
+    def __init__(self, once=False):
+        c_rd, c_wr = os.pipe()
+        r_rd, r_wr = os.pipe()
+        sys.stdout.flush()
+        sys.stderr.flush()
+        self.pid = os.fork()
+        if self.pid == 0:
+            code = 0
+            try:
+                os.close(c_wr)
+                os.close(r_rd)
+                _child_main(c_rd, r_wr, once)
             except BaseException:  # noqa: B036
-                data = json.dumps({"_crash": traceback.format_exc()[-2000:]})
-            with os.fdopen(wr, "w") as fh:
-                fh.write(data)
-        except BaseException:  # noqa: B036
-            code = 1
-        finally:
-            os._exit(code)
-    os.close(wr)
-    with os.fdopen(rd) as fh:
-        data = fh.read()
-    os.waitpid(pid, 0)
-    if not data:
-        return {"_crash": "forked sequence child produced no output"}
-    return json.loads(data)
+                code = 1
+            finally:
+                os._exit(code)
+        os.close(c_rd)
+        os.close(r_wr)
+        self.cmd, self.res, self.buf = os.fdopen(c_wr, "w"), r_rd, b""
+
+    def send(self, case, skip):
+        self.cmd.write(json.dumps(dict(case=case, skip=skip)) + "\n")
+        self.cmd.flush()
+
+    def state(self):
+        """(every thread asleep?, CPU ticks used by the process so far)"""
+        ticks, asleep = 0, True
+        try:
+            for t in os.listdir("/proc/%d/task" % self.pid):
+                with open("/proc/%d/task/%s/stat" % (self.pid, t)) as fh:
+                    st = fh.read()
+                f = st[st.rindex(")") + 2:].split()
+                asleep = asleep and f[0] == "S"
+                ticks += int(f[11]) + int(f[12])
+        except (OSError, ValueError, IndexError):
+            return False, None
+        return asleep, ticks
+
+    def wait(self, fast=False):
+        """("done", obs) | ("hang", stage key, how) | ("died", text)"""
+        grace, window = (FAST_GRACE, FAST_WINDOW) if fast else (HANG_GRACE, HANG_WINDOW)
+        stage, t0, quiet, last, cpu0 = None, time.monotonic(), None, None, None
+        hz = os.sysconf("SC_CLK_TCK") if hasattr(os, "sysconf") else 100
+        while True:
+            if select.select([self.res], [], [], POLL)[0]:
+                data = os.read(self.res, 1 << 16)
+                if not data:
+                    return "died", "child ended without a result (stage %r)" % (stage,)
+                self.buf += data
+                while b"\n" in self.buf:
+                    line, self.buf = self.buf.split(b"\n", 1)
+                    msg = json.loads(line)
+                    if "done" in msg:
+                        return "done", msg["done"]
+                    stage, t0, quiet, last, cpu0 = msg["at"], time.monotonic(), None, None, None
+                continue
+            now = time.monotonic()
+            if now - t0 < grace:
+                continue
+            asleep, ticks = self.state()
+            if ticks is not None:
+                cpu0 = ticks if cpu0 is None else cpu0
+                quiet = (quiet or now) if (asleep and ticks == last) else None
+                last = ticks
+                if quiet is not None and now - quiet >= window:
+                    return "hang", stage, "blocked"
+                if (ticks - cpu0) / hz > CPU_LIMIT:
+                    return "hang", stage, "spinning"
+            if now - t0 > (WALL_LIMIT if ticks is not None else 20.0):
+                return "hang", stage, "timeout"
+
+    def kill(self):
+        try:
+            self.cmd.close()
+        except Exception:
+            pass
+        try:
+            os.kill(self.pid, signal.SIGKILL)
+        except OSError:
+            pass
+        try:
+            os.waitpid(self.pid, 0)
+        except OSError:
+            pass
+        try:
+            os.close(self.res)
+        except OSError:
+            pass
+
+
+class Supervisor:
+    def __init__(self):
+        self.worker = None
+        self.hangs = 0
+
+    def run(self, case):
+        if not hasattr(os, "fork"):
+            return run_here(case)
+        seq = case.get("family") == "seq"
+        skip = {}
+        while True:
+            if seq:
+                child = Child(once=True)
+            else:
+                if self.worker is None:
+                    self.worker = Child()
+                child = self.worker
+            try:
+                child.send(case, skip)
+                r = child.wait(fast=self.hangs >= FAST_AFTER)
+            except (OSError, ValueError) as x:
+                r = ("died", "%s: %s" % (type(x).__name__, x))
+            if r[0] == "done":
+                if seq:
+                    child.kill()
+                return r[1]
+            child.kill()
+            if not seq:
+                self.worker = None
+            if r[0] == "died":
+                return {"_crash": "supervised child: " + r[1]}
+            _, stage, how = r
+            self.hangs += 1
+            if isinstance(stage, list) and len(stage) == 3 and stage[2] == "measure":
+                return {"_crash": "measuring the capability flags of the arguments / exceptions (real json / pickle / repr / str on "
+                                  "them - some of them are results or objects that store results) did not finish: %s%s"
+                                  % (how, "" if stage[0] is None else ", step %r" % stage[0])}
+            if not (isinstance(stage, list) and len(stage) == 3 and stage[2] in ("store", "load")):
+                return {"_crash": "the harness' own code (outside a store / load of taskiq) did not finish: %s, at %r" % (how, stage)}
+            if len(skip) >= MAX_HANGS:
+                return {"_crash": "more than %d stages of one case did not finish; last: %s at %r" % (MAX_HANGS, how, stage)}
+            skip[json.dumps(stage)] = dict(o="hang", stage=stage[2], how=how)
+
+
+SUPERVISOR = Supervisor()
